@@ -678,7 +678,7 @@ def buffer_storage(ctx, db):
                     bad = bad or ('the item count divides by %d bytes but one element of the buffer (%s) has %d: %s' % (v, et, es, 'the buffer is resized to fewer bytes than the frame needs' if v > es
                                                                                                                       else 'the buffer is grown to a multiple of what is needed'), tr[:i + 1])
         if not seen_k:
-            raise Broken('reusable_buffer_storage::alloc: no ceiling division of sz by an item size found on its paths')
+            continue        # no ceiling division at all: that is the older clause's finding (buffer-large-enough judges the count itself), not a lost anchor of this one
         ctx.ob(rid2, f, f['key'], bad is None, 'item size = sizeof(%s) = %d' % (et, es) + ('' if not bad else ' -- ' + bad[0]), desc=bad[0] if bad else None, trace=fmt_trace(bad[1]) if bad else None, inst=f['inst'])
     for f in db.need('cocls::reusable_buffer_storage::alloc')[:1]:
         bad = None; ng = nk = 0
